@@ -70,7 +70,10 @@ class MunkresDecision(Decision):
         decision_matrix = zeros(reward_matrix.shape, dtype=bool)
 
         # Solve reward matrix as a bipartite graph using the Hungarian algorithm
-        tgt_indices, sen_indices = linear_sum_assignment(reward_matrix, maximize=True)
+        # [NOTE]: pairs that are not visible cannot be tasked, so they must not attract the assignment:
+        #   their reward is masked out before optimizing.
+        masked_rewards = where(visibility_matrix, reward_matrix, 0.0)
+        tgt_indices, sen_indices = linear_sum_assignment(masked_rewards, maximize=True)
         for tgt_ind, sen_ind in zip(tgt_indices, sen_indices):
             decision_matrix[tgt_ind, sen_ind] = True
 
